@@ -994,7 +994,7 @@ class Gen:
                         raise WbxError(f"loop {n} of {name} is not a for loop")
                     inserts.append((f.body_s + in_end, f" {m.group(2)}:"))
                 inserts.append((f.body_s + brace, "\n" + body + "\n"))
-            elif kind in ("before", "after"):
+            elif kind in ("before", "after", "before_stmt"):
                 m = re.match(r"(?:#(\d+)\s+)?`(.*)`\s*:$", arg)
                 if not m:
                     raise WbxError(f"bad anchor directive `{arg}`")
@@ -1008,7 +1008,31 @@ class Gen:
                     if k >= len(hits):
                         raise WbxError(f"lost anchor: occurrence #{k} of `{m.group(2)}` in fn {name}")
                     h = hits[k]
-                off = f.body_s + (h[0] if kind == "before" else h[1])
+                if kind == "before_stmt":
+                    # start of the statement that contains the anchor: after the previous `;`, `{` or `}` at the same nesting depth
+                    btxt = text[f.body_s:f.body_e]
+                    tk = [t for t in lex(btxt) if t.kind not in ("ws", "comment")]
+                    idx = next(i for i, t in enumerate(tk) if t.s == h[0])
+                    depth = 0
+                    j = idx - 1
+                    start = tk[idx].s
+                    while j >= 0:
+                        tt = tk[j]
+                        if tt.kind == "punct" and tt.text in (")", "]", "}") and depth == 0 and tt.text == "}":
+                            break
+                        if tt.kind == "punct" and tt.text in CLOSE:
+                            depth += 1
+                        elif tt.kind == "punct" and tt.text in OPEN:
+                            if depth == 0:
+                                break
+                            depth -= 1
+                        elif tt.kind == "punct" and tt.text == ";" and depth == 0:
+                            break
+                        start = tt.s
+                        j -= 1
+                    off = f.body_s + start
+                else:
+                    off = f.body_s + (h[0] if kind == "before" else h[1])
                 inserts.append((off, ("\n" + body + "\n")))
             elif kind == "body_start:":
                 inserts.append((f.body_s + 1, "\n" + body + "\n"))
@@ -1042,7 +1066,7 @@ class Gen:
             if kind == "loop":
                 for k, v in count_clauses("\n".join(lines)).items():
                     clauses["loop " + k] = clauses.get("loop " + k, 0) + v
-            if kind in ("before", "after", "body_start:", "body_end:"):
+            if kind in ("before", "after", "before_stmt", "body_start:", "body_end:"):
                 clauses["proof asserts"] = clauses.get("proof asserts", 0) + len(re.findall(r"\bassert\b", "\n".join(lines)))
         for k, v in log.items():
             bump(self.meta["rewrites"], k, v)
